@@ -1,0 +1,9 @@
+//go:build verif
+
+package hooks
+
+// Contracts checked by /verif (lsvc). This file contains comments only and is
+// compiled only with the build tag "verif".
+
+// Hooks are installed before the syncer runs and are not changed by it.
+//@ stable Hooks.FilterReadDBI, Hooks.BeforeRead, Hooks.UpdateSnapshotInfo, Hooks.UpdateStored, Hooks.InstanceReady, Hooks.SnapshotOverdue
